@@ -32,7 +32,8 @@ def judge(store, init, ops, log, fin):
 def run(ctx):
     ctx.rule = ("2-4 concurrent operations (set / set_state / get / edit_state blocks of 1-3 parts that await "
                 "between parts, incl. read-modify-write counters) on a DictState or typed state, driven by random "
-                "schedules (start a task / open the next gate, run the loop to quiescence) on InMemoryStateStore "
+                "schedules (start a task / open the next gate, run the loop to quiescence; in a third of the cases a task started "
+                "while an edit block is suspended inherits that block's contextvars context) on InMemoryStateStore "
                 "and SqliteStateStore; distinct key = (store, op kinds, observed segment order)")
     ctx.prove()
     ctx.partial.append("asyncio.Lock = the FIFO model of Model/StateSchedFifo.v is checked by replay on every run, not "
@@ -56,8 +57,9 @@ def run(ctx):
             init, ops, sched = K.gen_case(rng, i)
             cls = S.BY_CHAIN[tuple(init[0])]
             runs = {}
-            runs["memory"] = K.run_real(lambda: InMemoryStateStore(cls()), init, ops, sched)
-            runs["sqlite"] = K.run_real(lambda: env.fresh_sql(cls)[0], init, ops, sched)
+            inh = (i % 3 == 1)      # tasks started while an edit block is suspended inherit that block's contextvars
+            runs["memory"] = K.run_real(lambda: InMemoryStateStore(cls()), init, ops, sched, inherit=inh)
+            runs["sqlite"] = K.run_real(lambda: env.fresh_sql(cls)[0], init, ops, sched, inherit=inh)
             for store in ("memory", "sqlite"):
                 log, fin, outcome, fifo = runs[store]
                 exprs.append(K.case_expr(store, locks[store], init, ops, log, fin))
